@@ -67,6 +67,13 @@ func (t *Trans) cbRefine(fr *Frame, cb *Contract, av ssa.Value, label string, po
 		t.uses[u] = true
 	}
 	// provider
+	for {
+		if ct, ok := av.(*ssa.ChangeType); ok {
+			av = ct.X
+			continue
+		}
+		break
+	}
 	var g *ssa.Function
 	var binds []string
 	if ci, ok := fr.closures[av]; ok {
